@@ -10,9 +10,13 @@
 package main
 
 import (
+	"net/http"
+
 	"encoding/json"
 	"flag"
 	"fmt"
+	"github.com/henrylee2cn/erpc/v6/mixer/websocket"
+	"github.com/henrylee2cn/erpc/v6/mixer/websocket/jsonSubProto"
 	"net"
 	"os"
 	"strings"
@@ -50,6 +54,7 @@ type Scn struct {
 	Budget        int    `json:"budget"` // RedialTimes: 0, n, -1
 	Hook          string `json:"hook"`   // plain (no I/O) | handshake (PreCall answered by a PostAccept plug-in)
 	UserID        bool   `json:"user_id"`
+	WS            bool   `json:"websocket,omitempty"`       // the client dials through the shipped websocket dial plug-in (json sub-protocol) to the shipped websocket serve handler
 	IDForm        string `json:"id_form,omitempty"`         // with UserID: "" = a label of the application; remote-addr = the address string of the server the session was dialed to; ip-like = a text that looks like an address
 	Base          string `json:"base"`                      // state at the loss: idle|awaiting|mid-write|big-write
 	NCalls        int    `json:"n_calls"`                   // calls awaiting the parked handler
@@ -99,6 +104,9 @@ func (s Scn) sig() string {
 	}
 	if s.IDForm != "" {
 		sig += "/id=" + s.IDForm
+	}
+	if s.WS {
+		sig += "/websocket"
 	}
 	if s.DialTimeoutMs > 0 {
 		sig += fmt.Sprintf("/dial-timeout=%dms", s.DialTimeoutMs)
@@ -474,6 +482,14 @@ func (e *env) isClient(s erpc.Session) bool {
 	return false
 }
 
+// dialProto: the protocol argument of Dial (websocket sessions name their sub-protocol).
+func (e *env) dialProto() []erpc.ProtoFunc {
+	if e.sc.WS {
+		return []erpc.ProtoFunc{jsonSubProto.NewJSONSubProtoFunc()}
+	}
+	return nil
+}
+
 func connClass(code int32) bool { return code >= 100 && code <= 199 }
 
 func (e *env) setup() error {
@@ -508,6 +524,11 @@ func (e *env) setup() error {
 	e.srvWG.Add(1)
 	go func() {
 		defer e.srvWG.Done()
+		if sc.WS {
+			// the shipped websocket serve handler behind a plain http server
+			http.Serve(lis, websocket.NewServeHandler(e.srv, nil, jsonSubProto.NewJSONSubProtoFunc()))
+			return
+		}
 		for {
 			c, err := lis.Accept()
 			if err != nil {
@@ -533,10 +554,14 @@ func (e *env) setup() error {
 	if sc.Timed || sc.IntervalUnset || sc.IntervalMs > 0 {
 		cfg.RedialInterval = time.Duration(sc.IntervalMs) * time.Millisecond // 0: not set - the documented default of 100 ms applies
 	}
-	e.cli = erpc.NewPeer(cfg, e.hook)
+	if sc.WS {
+		e.cli = erpc.NewPeer(cfg, websocket.NewDialPlugin("/"), e.hook)
+	} else {
+		e.cli = erpc.NewPeer(cfg, e.hook)
+	}
 	envs.Store(e.cli, e)
 	e.cliNote = e.cli.RoutePushFunc(HCliNote)
-	sess, st := e.cli.Dial(e.fw.Addr())
+	sess, st := e.cli.Dial(e.fw.Addr(), e.dialProto()...)
 	if !st.OK() {
 		return fmt.Errorf("dial: %v", st)
 	}
@@ -1331,7 +1356,7 @@ func (e *env) secondSession() {
 	sc := e.sc
 	e.fw.Refuse(0, false)
 	e.fw.Up()
-	s2, st := e.cli.Dial(e.fw.Addr())
+	s2, st := e.cli.Dial(e.fw.Addr(), e.dialProto()...)
 	if !st.OK() {
 		e.inconclusive("second session: dial failed: %v", st)
 		return
@@ -1425,7 +1450,7 @@ func (e *env) judgeReconnected(hooksBefore int, id0 string) {
 	core.Add("later_calls", int64(len(codes)))
 	if first < 0 {
 		// does a fresh session work? (distinguishes a dead Session value from an unreachable server)
-		fresh, st := e.cli.Dial(e.fw.Addr())
+		fresh, st := e.cli.Dial(e.fw.Addr(), e.dialProto()...)
 		works := false
 		if st.OK() {
 			var res string
